@@ -13,8 +13,10 @@ Complete small-scope input enumeration on the real code:
                attributes still attached, interpolation at chromosome ends and segment midpoints.
                Per map: interpolation kinds (own markers / between flanking markers / outside /
                absent chromosome, query-order independence), gdist1g/2g/1p/2p incl. index windows,
-               rprob*, interp_gmap (+ the derived map obeys the own-marker law) and interp_xoprob
-               on three matrix classes x both map functions.
+               rprob*, interp_gmap (+ the derived map obeys the own-marker law), remove()/select()
+               of every single row followed by build_spline() (state and interpolation of the
+               remaining rows), interp_xoprob on three matrix classes x both map functions; every
+               call must leave its argument arrays and the map untouched.
                quick tier: second chromosome from a covering set; thorough tier: all pairs of
                chromosome configurations (3+3 markers: every first chromosome x every physical
                layout x 5 genetic patterns of the second).
@@ -39,7 +41,7 @@ TECHNIQUE = ("complete small-scope input enumeration: distance/probability grid 
 RULE = ("fn layer: one case per (map function, grid value, direction); map layer: one case per (class, construction "
         "mode, map, row permutation) — construct, compare the whole state with the sorted row list, interpolate at own "
         "markers and segment midpoints — plus per (class, map) one case per law family (interpolation kinds, query "
-        "order, gdist1g/2g with every index window, gdist1p/2p, rprob*, interp_gmap, interp_xoprob on 3 matrix classes "
+        "order, gdist1g/2g with every index window, gdist1p/2p, rprob*, interp_gmap, remove/select+build_spline, interp_xoprob on 3 matrix classes "
         "x 2 map functions x 3 marker sets); distinct = (class, mode, map); non-trivial = a map with at least one "
         "segment of non-zero slope (interpolation distinguishable from a constant) and, for permutations, an order "
         "that is not already sorted")
@@ -307,22 +309,31 @@ def _ext_fields(rows):
                 vrnt_fncode=_arr((("H", "K", "M")[r[3] % 3] for r in rows), object))
 
 
-def build(clsname, mode, rows):
-    """Construct the real map from rows given in the supplied order."""
+def build(clsname, mode, rows, keep=None):
+    """Construct the real map from rows given in the supplied order.  `keep`, if a list, receives
+    (array handed to the constructor, private copy) pairs so the caller can verify they were left alone."""
     cls = _cls(clsname)
     kw = dict(vrnt_chrgrp=_arr((r[0] for r in rows), "int64"), vrnt_phypos=_arr((r[1] for r in rows), "int64"))
     gen = _arr((r[2] for r in rows), "float64")
     if clsname == "ExtendedGeneticMap":
         kw.update(_ext_fields(rows))
+    if mode == "cM":
+        gen = gen * 100.0
+    if keep is not None:
+        keep.extend((a, a.copy()) for a in list(kw.values()) + [gen])
     if mode == "auto":
         return cls(vrnt_genpos=gen, **kw)
     if mode == "cM":
-        return cls(vrnt_genpos=gen * 100.0, vrnt_genpos_units="cM", **kw)
+        return cls(vrnt_genpos=gen, vrnt_genpos_units="cM", **kw)
     if mode == "manual":
         g = cls(vrnt_genpos=gen, auto_group=False, auto_build_spline=False, **kw)
         g.build_spline()
         return g
     raise ValueError(mode)
+
+
+def _inputs_untouched(keep):
+    return all((a.tolist() == b.tolist()) if a.dtype == object else numpy.array_equal(a, b) for a, b in keep)
 
 
 class MapCase:
@@ -365,7 +376,8 @@ def check_order(ctx, mc: MapCase, order):
     """One (map, row order): construct, compare the state, interpolate."""
     P = mc.clsname
     rows = [mc.rows[i] for i in order]
-    g = build(mc.clsname, mc.mode, rows)
+    keep = []
+    g = build(mc.clsname, mc.mode, rows, keep)
     ctx.transitions += 1
     if mc.mode == "manual":
         # nothing may have been sorted or grouped yet; the spline must already answer correctly
@@ -384,6 +396,7 @@ def check_order(ctx, mc: MapCase, order):
         raise Violation(P + ".interp_genpos:" + kind,
                         f"chromosome {int(mc.q_chr[i])} position {int(mc.q_phy[i])}: got {out[i]!r}, row list gives {mc.q_exp[i]!r} "
                         f"(rows supplied as {[(r[0], r[1], r[2]) for r in rows]})")
+    require(_inputs_untouched(keep), P + ":input-mutated", "construction / interpolation changed the arrays the caller handed to the constructor")
     if mc.mode == "manual":
         # the rows must still be the supplied multiset; if the object now claims to be grouped it must be sorted
         got = sorted(zip(g.vrnt_chrgrp.tolist(), g.vrnt_phypos.tolist(), g.vrnt_genpos.tolist()))
@@ -518,12 +531,48 @@ def run_laws(ctx, mc: MapCase):
         allok &= _laws_xoprob(ctx, mc, g, case, own, inside, outside, absentq)
     allok &= _laws_interp_gmap(ctx, mc, g, case, own, inside, outside, absentq)
 
+    allok &= _laws_edit(ctx, mc, case)
+
     def final_state():
         _check_state(g, mc, P)
     allok &= _law(ctx, final_state, case, P + ":after-queries:")
     if "res_all" in box:
         ctx.outcome(("map", box["res_all"]))
     return allok
+
+
+def _laws_edit(ctx, mc, case):
+    """A map that reached its rows through remove()/select() and an explicit build_spline() is a genetic map like
+    any other: its state is the sorted remaining rows and it interpolates them."""
+    P = mc.clsname
+    ok = True
+    for i in range(mc.n):
+        rest = [r for j, r in enumerate(mc.rows) if j != i]
+        if not R.MapModel(rest).valid() or len({r[0] for r in rest}) != len(mc.model.chroms):
+            continue
+        mc2 = MapCase(mc.clsname, "auto", rest, mc.absent)
+        for op in ("remove", "select"):
+            def edit(op=op, i=i, mc2=mc2):
+                g = build(mc.clsname, "auto", mc.rows[::-1])
+                g.interp_genpos(mc.q_chr, mc.q_phy)          # the map has been used before it is edited
+                if op == "remove":
+                    g.remove(i)
+                else:
+                    g.select(numpy.array([j for j in range(mc.n) if j != i], dtype="int64"))
+                g.build_spline()
+                ctx.transitions += 3
+                ctx.evaluations += 1
+                try:
+                    _check_state(g, mc2, P)
+                except Violation as v:
+                    raise Violation(f"{P}.{op}:state", v.detail)
+                out = g.interp_genpos(mc2.q_chr, mc2.q_phy)
+                ctx.transitions += 1
+                require(close(out, mc2.q_exp), f"{P}.{op}+build_spline:interp_genpos",
+                        lambda: f"after {op} of row {i} and build_spline(): interpolation {out.tolist()} expected {mc2.q_exp.tolist()} for rows {[(r[0], r[1], r[2]) for r in mc2.rows]}")
+                ctx.flag("edit:" + op)
+            ok &= _law(ctx, edit, case, f"{P}.{op}:")
+    return ok
 
 
 def _ref_d1(chrs, gens):
@@ -670,6 +719,12 @@ def _laws_gdist(ctx, mc, g, case, own, inside, outside):
             require(close(p2, [[R.mapfn_nan(name, v) for v in row] for row in box_e2.tolist()]), FP + ".rprob2p:value", lambda: f"{p2.tolist()}")
             ctx.flag(f"rprob:{name}")
     ok &= _law(ctx, gp, case, P + ".gdist_p:")
+
+    def untouched():
+        require(mc.c_chr.tolist() == chrs and mc.c_phy.tolist() == [r[1] for r in mc.rows] and mc.c_gen.tolist() == [r[2] for r in mc.rows]
+                and sorted(zip(qc.tolist(), qx.tolist())) == qs and list(zip(qc.tolist(), qx.tolist())) == qs,
+                P + ".gdist:input-mutated", "a gdist*/rprob* call changed its argument arrays")
+    ok &= _law(ctx, untouched, case, P + ".gdist:")
     return ok
 
 
@@ -776,12 +831,17 @@ def _laws_xoprob(ctx, mc, g, case, own, inside, outside, absentq):
     plan = [("DenseGenotypeMatrix", "own", own), ("DenseGenotypeMatrix", "dense+absent", dense), ("DenseGenotypeMatrix", "duplicates", dup),
             ("DensePhasedGenotypeMatrix", "dense+absent", dense), ("DenseGeneticMappableMatrix", "dense+absent", dense)]
     for gname, label, pairs in plan:
+        shared = {}
         for name in FNS:
             GP = gname + ".interp_xoprob"
 
-            def one(gname=gname, pairs=pairs, name=name, GP=GP):
-                m, given = _make_gmat(gname, pairs)
-                ctx.transitions += 2
+            def one(gname=gname, pairs=pairs, name=name, GP=GP, shared=shared):
+                # one matrix object per marker set: the second map function is applied to the object that already
+                # carries the first one's positions and probabilities (they must be replaced, not reused)
+                if "m" not in shared:
+                    shared["m"], shared["given"] = _make_gmat(gname, pairs)
+                    ctx.transitions += 2
+                m, given = shared["m"], shared["given"]
                 qc, qx = m.vrnt_chrgrp.copy(), m.vrnt_phypos.copy()
                 cols = _gmat_cols(gname, m)
                 # grouping must have sorted the markers and kept each column with its marker
@@ -900,7 +960,7 @@ def finalize(ctx, tier, seed):
     for f in ("nchrom:1", "nchrom:2", "nchrom:3", "congruent", "non-congruent", "midpoints", "tied-genetic-positions",
               "q:absent", "q:knot", "q:inside", "q:below", "q:above", "order-preserving-checked",
               "gdist2g:across", "gdist2g:additive-triple", "interp_gmap:own-reversed", "interp_gmap:dense", "interp_gmap:first-two",
-              "interp_gmap:all-unsorted", "xoprob:start", "xoprob:zero-distance", "xoprob:positive", "xoprob:missing"):
+              "interp_gmap:all-unsorted", "edit:remove", "edit:select", "xoprob:start", "xoprob:zero-distance", "xoprob:positive", "xoprob:missing"):
         assert f in ctx.flags, f
     for gname in GMATS[:2]:
         for f in FNS:
